@@ -61,6 +61,13 @@ type Step struct {
 	Pre  map[string]int `json:"pre"`
 	// Cands: payloads of concurrently issued first answers (op = answerc)
 	Cands []map[string]int `json:"cands"`
+	// Evs: events delivered concurrently (op = deliverc)
+	Evs []EvRef `json:"evs"`
+}
+
+type EvRef struct {
+	K   string `json:"k"`
+	Ref string `json:"ref"`
 }
 
 type Schedule struct {
@@ -215,7 +222,7 @@ func (r *runner) observe(tr tracing.ITrace) {
 			id = *p
 		}
 		k, ref := evName(t.Event)
-		r.add(Rec{Ev: "observed", Node: id, Kind: k + ":" + ref})
+		r.add(Rec{Ev: "observed", Node: id, Kind: k, Flows: []string{ref}})
 		r.bump("observed:" + id)
 	case bpmn.ActiveBoundaryTrace:
 		r.add(Rec{Ev: "boundary", Node: nodeId(t.Node), Ok: t.Start})
@@ -527,7 +534,7 @@ func (r *runner) perform(ctx context.Context, cancel context.CancelFunc, inst *b
 		}
 	case "deliver":
 		r.mu.Lock()
-		r.add(Rec{Ev: "deliver", Kind: st.Kind + ":" + st.Node})
+		r.add(Rec{Ev: "deliver", Kind: st.Kind, Node: st.Node})
 		r.mu.Unlock()
 		var ev event.IEvent
 		if st.Kind == "message" {
@@ -538,12 +545,45 @@ func (r *runner) perform(ctx context.Context, cancel context.CancelFunc, inst *b
 		ok := callWithin(o.T, func() { _, _ = inst.ConsumeEvent(ev) })
 		r.mu.Lock()
 		if ok {
-			r.add(Rec{Ev: "delivered", Kind: st.Kind + ":" + st.Node})
+			r.add(Rec{Ev: "delivered", Kind: st.Kind, Node: st.Node})
 		} else {
 			r.add(Rec{Ev: "blocked", Kind: "consume", Node: st.Node})
 		}
 		r.mu.Unlock()
 		if !ok {
+			return false
+		}
+	case "deliverc":
+		r.mu.Lock()
+		for _, e := range st.Evs {
+			r.add(Rec{Ev: "deliver", Kind: e.K, Node: e.Ref})
+		}
+		r.mu.Unlock()
+		var wg sync.WaitGroup
+		gate := make(chan struct{})
+		for _, e := range st.Evs {
+			e := e
+			wg.Add(1)
+			go func() {
+				defer wg.Done()
+				var ev event.IEvent
+				if e.K == "message" {
+					ev = event.NewMessageEvent(e.Ref, nil)
+				} else {
+					ev = event.NewSignalEvent(e.Ref)
+				}
+				<-gate
+				_, _ = inst.ConsumeEvent(ev)
+				r.mu.Lock()
+				r.add(Rec{Ev: "delivered", Kind: e.K, Node: e.Ref})
+				r.mu.Unlock()
+			}()
+		}
+		close(gate)
+		if !callWithin(o.T, wg.Wait) {
+			r.mu.Lock()
+			r.add(Rec{Ev: "blocked", Kind: "consume"})
+			r.mu.Unlock()
 			return false
 		}
 	case "wait":
